@@ -16,8 +16,13 @@ V4_MASK = [0x03, 0x0f, 0x3f, 0xff]
 V6_MASK = [0x01, 0x03, 0x07, 0x0f, 0x1f, 0x3f, 0x7f, 0xff]
 
 
+
+
 def array_ints(t):
     t = strip_transparent(t)
+    if isinstance(t, tuple) and t[0] == 'named' and getattr(lib._TL, 'facts', None) is not None:
+        v = lib._TL.facts.const_value(t[1])
+        return list(v) if isinstance(v, (list, tuple)) and all(isinstance(x, int) for x in v) else None
     if isinstance(t, tuple) and t[0] == 'array':
         vals = [term_int(x) for x in t[1]]
         return vals if all(v is not None for v in vals) else None
@@ -69,8 +74,11 @@ def run(ctx, res):
                     rng = [x for x in term_walk(dst) if isinstance(x, tuple) and x and x[0] == 'agg' and x[1].startswith('std::ops::Range')]
                     rng2 = [x for x in term_walk(src) if isinstance(x, tuple) and x and x[0] == 'agg' and x[1].startswith('std::ops::Range')]
                     oc = find_calls(src, 'Addr::octets')
-                    if rng and rng2 and oc and term_int(rng[0][2].get('end')) == n and term_int(rng2[0][2].get('end')) == n and is_param(root_of(strip_transparent(oc[0][2][0])), 'ip') \
-                            and (rng[0][2].get('start') is None or term_int(rng[0][2].get('start')) == 0):
+                    # destination: array[..n] / array[0..n], or the whole n-byte array; source: octets()[..n], or all octets of an address with n of them
+                    natural = 4 if (oc and 'Ipv4Addr' in oc[0][1]) else 16 if oc else None
+                    dst_n = term_int(rng[0][2].get('end')) if rng and (rng[0][2].get('start') is None or term_int(rng[0][2].get('start')) == 0) else (8 if not rng and base_array(dst)[0] == 'repeat' and str(base_array(dst)[2]).strip() in ('8', '8_usize') else None)
+                    src_n = term_int(rng2[0][2].get('end')) if rng2 and (rng2[0][2].get('start') is None or term_int(rng2[0][2].get('start')) == 0) else (natural if not rng2 else None)
+                    if oc and dst_n == n and src_n == n and is_param(root_of(strip_transparent(oc[0][2][0])), 'ip'):
                         ok_copy = True
                 # masking loop: arr[i] = arr[i] & MASK[i], i in 0..n
                 if e[0] == 'write' and e[1][0] == 'index' and e[2][0] == 'bin' and e[2][1] == 'BitAnd' and p.end == 'loop':
@@ -85,6 +93,21 @@ def run(ctx, res):
                     if m is not None:
                         masks_seen.add(tuple(m))
                         if m[:n] == want_mask and rng and term_int(rng[0][2].get('start')) == 0 and term_int(rng[0][2].get('end')) == n:
+                            ok_mask = True
+                # the same masking as `for (octet, m) in arr.iter_mut().zip(MASK).take(n) { *octet &= m }`
+                if e[0] == 'write' and p.end == 'loop' and isinstance(e[2], tuple) and e[2][0] == 'bin' and e[2][1] == 'BitAnd':
+                    z = find_calls(e[1], '::zip')
+                    if z and field_chain(strip_transparent(e[1]))[-2:] == ['0', '0']:
+                        sides = [strip_transparent(e[2][2]), strip_transparent(e[2][3])]
+                        has_self = any(field_chain(x)[-2:] == ['0', '0'] and find_calls(x, '::zip') == z for x in sides)
+                        has_mask = any(field_chain(x)[-2:] == ['0', '1'] and find_calls(x, '::zip') == z for x in sides)
+                        m = array_ints(z[0][2][1])
+                        tk = find_calls(e[1], '::take')
+                        cnt = term_int(strip_transparent(tk[0][2][1])) if tk else None
+                        whole = 'repeat' in fmt(z[0][2][0]) and find_calls(z[0][2][0], '::iter_mut')
+                        if m is not None:
+                            masks_seen.add(tuple(m))
+                        if has_self and has_mask and whole and m is not None and m[:n] == want_mask and (cnt == n or (cnt is None and all(v == 0 for v in m[n:]) and len(m) == 8)):
                             ok_mask = True
         for p in rets:
             R = None
@@ -101,7 +124,7 @@ def run(ctx, res):
                     data = e[2][1]
                     ix = find_calls(data, '::index')
                     rng = [ix[0][2][1]] if ix and ix[0][2][1][0] == 'agg' and ix[0][2][1][1].startswith('std::ops::Range') else []
-                    if term_int(e[2][0]) == 0 and rng and term_int(rng[0][2].get('start')) == 0 and term_int(rng[0][2].get('end')) == n and arr is not None and base_array(data) == arr \
+                    if term_int(e[2][0]) == 0 and rng and (rng[0][2].get('start') is None or term_int(rng[0][2].get('start')) == 0) and term_int(rng[0][2].get('end')) == n and arr is not None and base_array(data) == arr \
                             and R is not None:
                         crc = ('call', e[1], e[2], e[3])
                         ok_crc = True
